@@ -4091,6 +4091,12 @@ pub fn lift_fn(ctx: &mut Ctx, blk: &Block) -> Result<(String, Value), String> {
             let Some(l) = fl.found else { return Err(format!("lost anchor: no binding of `{lname}` in {path}")) };
             init = (*l.init.as_ref().unwrap().expr).clone();
         }
+        // L29g: an initialiser `e?` lifted with `ret=Result<..>` is `e` itself (the function returns what `?` inspects)
+        if blk.opt("ret").map(|r| r.trim_start().starts_with("Result<")).unwrap_or(false) {
+            if let syn::Expr::Try(t) = &init {
+                init = (*t.expr).clone();
+            }
+        }
         // L29b `addend=<k>/<n>`: the initialiser is a chain of exactly n top-level `+` operands; lift the k-th (0-based,
         // source order) alone.  Lets a contract speak about one summand of `let h = A + B + C;` at a time.
         if let Some(spec) = blk.opt("addend") {
